@@ -92,6 +92,16 @@ def object_history(rng):
                 else:
                     body.append(ExprS(Call("GetG", [], r)))
                     body.append(ExprS(Method(Var(r), [rng.choice([("后增", [Num(rng.randrange(10, 99))]), ("左移", [])])])))
+            elif k == 5 and rng.random() < 0.5:
+                # a list held by a variable assigned to a property: the object holds a copy (changes of the variable's list
+                # afterwards do not reach it, and the other way round)
+                nyield[0] += 1
+                lv = "L%d" % nyield[0]
+                body.append(Decl([(False, [lv], Arr([Num(rng.randrange(0, 9)), Num(rng.randrange(0, 9))]))]))
+                body.append(ExprS(AssignMember(Var(o), "Pl", Var(lv))))
+                body.append(ExprS(Method(Var(lv), [("后增", [Num(rng.randrange(10, 99))])])))
+                body.append(ExprS(Method(Member(Var(o), "Pl"), [("前增", [Num(rng.randrange(10, 99))])])))
+                body.append(Display(Var(lv)))
             elif k == 4:
                 body.append(ExprS(Method(Member(Var(o), "Pl"), [(rng.choice(["后增", "前增"]), [Num(rng.randrange(10, 99))])])))
             else:
